@@ -137,6 +137,14 @@ func evalC06(cs *c06Case) (vs []*Violation, outcome string) {
 		if !m.Parsed() {
 			add("parsed-indicator", cl, "Parsed()==false on success")
 		}
+	} else if wantErr == sipsp.ErrHdrNoCLen {
+		// "reported as such": the verdict comes with the frame of what was parsed (start line through blank line)
+		if string(m.RawMsg) != string(buf[cs.Offs:wantOffs]) {
+			add("raw-message-is-start-to-offset", cl+"/"+outcome, fmt.Sprintf("RawMsg len %d want %d", len(m.RawMsg), wantOffs-cs.Offs))
+		}
+		if int(m.Body.Offs) != bs || m.Body.Len != 0 {
+			add("body-extent", cl+"/"+outcome, fmt.Sprintf("Body=%v want {%d,0}", m.Body, bs))
+		}
 	}
 	return
 }
@@ -218,12 +226,15 @@ func evalC06Pipe(p *c06Pipe) (vs []*Violation) {
 			add("pipelined-equals-alone:verdict", fmt.Sprintf("msg%d/%s", mi, p.Reset), fmt.Sprintf("message %d: pipelined (%d,%v) alone (%d,%v)", k, n, e, an, ae))
 			return
 		}
-		if e != 0 {
+		if e != 0 && e != sipsp.ErrHdrNoCLen {
 			return
 		}
 		po, ao := msgDrv.obs(m, buf), msgDrv.obs(am, alone)
 		if po != ao {
 			add("pipelined-equals-alone:values", diffField(ao, po)+"/"+p.Reset, fmt.Sprintf("message %d (menu %d): %s", k, mi, firstDiff(ao, po)))
+		}
+		if e != 0 {
+			return
 		}
 		offs = n
 	}
